@@ -18,7 +18,7 @@ LEVEL_NOTE = ("Trusted: Lean kernel + 3 standard axioms; hand-written model Lex/
               "run; CPython re semantics. Token level (resync) and text level (lexer_boundary, resync_text), on the blocks "
               "handed to Library.add; key collisions between the parts are C09's business (generator keeps keys distinct).")
 TECHNIQUE = "Lean 4 proof: output monotonicity + reset-at-mark lemma + C02 scanner lemmas; differential correspondence on triples"
-RULE = ("size-scaled malformed middles (nesting 1500..6000 deep, closed and unclosed, in comments, strings, preambles and values; thousands of stray delimiters); triples (D1 from G ending in a complete block, X, D2 from G starting with '@type{' at a line start): X = every token "
+RULE = ("size-scaled malformed middles (nesting 1500..6000 deep, closed and unclosed, in comments, strings, preambles and values; thousands of stray delimiters); triples (D1 from G ending in a complete block, X, D2 from G starting with '@type{' at a line start): X = every proper prefix of well-formed blocks (also with repeated field / block keys), every token "
         "string of <= k tokens over { } \" , = NL \\ @a a SP (k=3 quick, 4 thorough) behind truncated-block prefixes, plus "
         "random truncations/corruptions of valid blocks. Compared: model vs real splitter on D1+X+D2 (complete blocks). "
         "Non-trivial = X non-empty and at least 2 blocks returned.")
@@ -35,6 +35,8 @@ def extra_obligations(tier):
 
 D1S = ["", "@a{k1, f = {v}}", "@string{s1 = {x}}\n@comment{c}", "text\n@b{k2,\n t = \"q\",\n}"]
 D2S = ["@c{k3, g = {w}}", "@comment{ok}\n@d{k4}", "@string{s2 = \"y\"}\ntrail", "@preamble{p}\n@e{k5, h = 1 # s2}\n"]
+WF_X = ["@a{k, f = {v}, f = {w}, g = {u}}", '@a{k, f = "v", F = 1, f = s # {w},}', '@string{s = {x} # "y"}', '@preamble{"p" # {q}}',
+        "@comment{c {d} e}", "@a{k, f = {v}}\n@a{k, f = {w}, f = 2}\n@string{s = 1}\n@string{s = 2}"]
 XPRE = ["", "@a{", "@a{k,", "@a{k, f = {", '@a{k, f = "', "@string{", "@string{s = ", "@comment{", "@preamble{", "}", '"']
 
 
@@ -73,6 +75,13 @@ def gen(tier, rng):
         for pre in XPRE:
             for tail in ("", "\n", "  \n", "\r\n", "\n\n\n"):
                 yield {"d1": D1S[(len(body) + len(tail)) % len(D1S)], "x": pre + body + tail, "d2": ""}
+    # every proper prefix of a well-formed block as the malformed middle (a block cut off at any point - also after a
+    # repeated field key, inside a concatenation, after a repeated block key): whatever the scanner had collected for the
+    # aborted block must not reach the blocks after it
+    for w in WF_X:
+        for i in range(1, len(w)):
+            for j, d2 in enumerate(D2S):
+                yield {"d1": D1S[(i + j) % len(D1S)], "x": w[:i], "d2": d2}
     # malformed middles of a SIZE that matters: very deep unclosed / closed nesting, very long truncated values,
     # thousands of stray delimiters (recursion limits, quadratic scans)
     for depth in ((1500, 6000) if tier == "quick" else (1500, 6000, 30000)):
